@@ -333,10 +333,116 @@ func runC15(c *Ctx) {
 		c.M.OMapAsync(o, &Fn{Name: []string{"id", "inc", "idx", "tostr"}[r.Intn(4)]})
 		c.St.Eval("seq:"+t.Token()+to.Token(), true)
 	}
+	// nested and concurrent async calls: calls are independent of each other (a lock shared between calls would deadlock)
+	c.M.Case("nested-and-concurrent-async")
+	for rep := 0; rep < c.N(3, 20); rep++ {
+		c.nestedAsync()
+		c.crossAsync()
+	}
 	// concurrent readers
 	c.M.Case("concurrent-readers")
 	for i := 0; i < c.N(40, 400); i++ {
 		t := r.Container(&TreeOpts{MaxDepth: 3, MaxWidth: 5, Keys: r.SimpleKey}, "[{"[r.Intn(2)])
 		c.concurrentReaders(t, 2+r.Intn(7))
 	}
+}
+
+// within runs f and reports whether it finished in time.
+func within(d time.Duration, f func()) bool {
+	done := make(chan struct{})
+	go func() {
+		defer func() { recover(); close(done) }()
+		f()
+	}()
+	select {
+	case <-done:
+		return true
+	case <-time.After(d):
+		return false
+	}
+}
+
+// nestedAsync: a pure mapping function may itself use MapAsync / ForEachAsync on another container.
+func (c *Ctx) nestedAsync() {
+	inner := at.NewList(1, 2, 3)
+	innerO := at.NewObject("a", 1, "b", 2)
+	outer := at.NewList(10, 20, 30)
+	outerO := at.NewObject("x", 1, "y", 2)
+	f := func(v any) any {
+		s := 0
+		inner.MapAsync(func(i int, x any) any { return x.(int) * 2 }).ForEachValue(func(x any) { s += x.(int) })
+		innerO.MapAsync(func(k string, x any) any { return x.(int) + 1 }).ForEachValue(func(x any) { s += x.(int) })
+		return v.(int) + s
+	}
+	var got, want string
+	if !within(5*time.Second, func() { got = treeOf(outer.MapAsync(func(i int, v any) any { return f(v) })).Token() }) {
+		c.M.Alarm("C15", "list MapAsync whose (pure) function itself calls MapAsync on another container did not return within 5 s (deadlock)")
+		return
+	}
+	want = treeOf(outer.Map(func(i int, v any) any { return f(v) })).Token()
+	if got != want {
+		c.M.Alarm("C15", "nested MapAsync returned "+got+", Map returns "+want)
+	}
+	if !within(5*time.Second, func() { got = treeOf(outerO.MapAsync(func(k string, v any) any { return f(v) })).Token() }) {
+		c.M.Alarm("C15", "object MapAsync whose (pure) function itself calls MapAsync on another container did not return within 5 s (deadlock)")
+		return
+	}
+	want = treeOf(outerO.Map(func(k string, v any) any { return f(v) })).Token()
+	if got != want {
+		c.M.Alarm("C15", "nested object MapAsync returned "+got+", Map returns "+want)
+	}
+	c.St.Eval("nested-async", true)
+	c.St.Count("async_nested")
+}
+
+// crossAsync: two MapAsync calls on different containers run concurrently; a callback of each waits until
+// a callback of the other has started. Independent calls can always make progress.
+func (c *Ctx) crossAsync() {
+	a := at.NewList(1, 2)
+	b := at.NewObject("k", 1, "l", 2)
+	aIn, bIn := make(chan struct{}), make(chan struct{})
+	var onceA, onceB sync.Once
+	ok := within(5*time.Second, func() {
+		var wg sync.WaitGroup
+		wg.Add(2)
+		go func() {
+			defer wg.Done()
+			a.MapAsync(func(i int, v any) any {
+				onceA.Do(func() { close(aIn) })
+				select {
+				case <-bIn:
+				case <-time.After(4 * time.Second):
+				}
+				return v
+			})
+		}()
+		go func() {
+			defer wg.Done()
+			b.MapAsync(func(k string, v any) any {
+				onceB.Do(func() { close(bIn) })
+				select {
+				case <-aIn:
+				case <-time.After(4 * time.Second):
+				}
+				return v
+			})
+		}()
+		wg.Wait()
+	})
+	waitedOut := false
+	select {
+	case <-aIn:
+	default:
+		waitedOut = true
+	}
+	select {
+	case <-bIn:
+	default:
+		waitedOut = true
+	}
+	if !ok || waitedOut {
+		c.M.Alarm("C15", "two concurrent MapAsync calls on different containers block each other (their callbacks cannot run at the same time)")
+	}
+	c.St.Eval("cross-async", true)
+	c.St.Count("async_cross")
 }
